@@ -13,7 +13,10 @@
         let xlo = if kind == 2 || kind == 3 { f64::NEG_INFINITY } else { -3.0 };
         let xhi = if kind == 1 || kind == 3 { f64::INFINITY } else { 5.0 };
         // declared out of order on purpose; `unused` is never referenced
-        for (n, lo, hi, used) in [("y", -4.0, 2.0, true), ("x", xlo, xhi, true), ("unused", 0.0, 1.0, false), ("b", 0.0, 9.0, true)] {
+        for (n, lo, hi, used) in [("y", -4.0, 2.0, true), ("x", xlo, xhi, true), ("unused", 0.0, 1.0, false), ("b", 0.0, 9.0, true),
+            // names whose String order differs from their case-insensitive order ("Zed" < "b", "xB" < "x_1"): the variable list is
+            // promised in String order (seed C08 of round 14 sorted by the lower-cased name); declared and marked used, in no row
+            ("x_1", 0.0, 1.0, true), ("Zed", 0.0, 1.0, true), ("xB", 0.0, 1.0, true)] {
             let mut dv = DomainVariable::new(VariableType::Real(lo, hi), InputSpan::default());
             if used { dv.increment_usage(); }
             d.insert(n.to_string(), dv);
